@@ -978,3 +978,230 @@ Proof.
   - assert (H : Nat.ltb 0 (R P) = true) by (apply Nat.ltb_lt; unfold R; lia). rewrite H. reflexivity.
   - apply andb_false_r.
 Qed.
+
+(* ------------------------------------------------------------------ *)
+(* termination: every schedule of enabled actions is bounded            *)
+
+Lemma sumr_ext : forall f g n, (forall i, i < n -> f i = g i) -> sumr f n = sumr g n.
+Proof.
+  intros f g n. induction n as [| n IH]; intros H; [reflexivity |].
+  cbn [sumr]. rewrite (H n) by lia. rewrite IH; [reflexivity |]. intros i Hi. apply H. lia.
+Qed.
+
+Lemma sumr_update : forall f g n i, i < n -> (forall j, j < n -> j <> i -> f j = g j) ->
+  sumr f n + g i = sumr g n + f i.
+Proof.
+  intros f g n. induction n as [| n IH]; intros i Hi H; [lia |].
+  cbn [sumr]. destruct (Nat.eq_dec i n) as [-> | Hne].
+  - rewrite (sumr_ext f g n) by (intros j Hj; apply H; lia). lia.
+  - rewrite (H n) by lia. assert (Hi' : i < n) by lia.
+    specialize (IH i Hi' (fun j Hj Hji => H j (Nat.lt_lt_succ_r _ _ Hj) Hji)). lia.
+Qed.
+
+Section Termination.
+  Variable P : list prog.
+  Variable c : nat.
+  Variable ch : nat -> nat -> choice.
+  Variable m0 : mem.
+  Variable bound : nat -> nat.   (* run i finishes (or panics) within [bound i] steps when run alone *)
+  Hypothesis Hdisj : pairwise_disjointb (map fp P) = true.
+  Hypothesis Hbound : forall i, i < R P -> so_status (solo (prog_of P i) (ch i) m0 (bound i)) <> Going.
+
+  Definition rem (i : nat) (r : rrec) : nat :=
+    match ph r with
+    | Idle => bound i + 3
+    | Running => (bound i - pc r) + 2
+    | Ran => 2
+    | Released => 1
+    | Finished => 0
+    end.
+
+  Definition mu (s : state) : nat :=
+    (R P - next s) + b2n (negb (returned s)) + sumr (fun i => rem i (runs s i)) (R P).
+
+  Lemma going_lt_bound : forall i k, i < R P -> so_status (solo (prog_of P i) (ch i) m0 k) = Going -> k < bound i.
+  Proof.
+    intros i k Hi Hg. destruct (Nat.lt_ge_cases k (bound i)) as [Hlt | Hge]; [exact Hlt |].
+    exfalso. apply (Hbound i Hi). apply (solo_going_before _ _ _ (bound i) k Hg Hge).
+  Qed.
+
+  Lemma mu_updr : forall s i r', i < R P ->
+    sumr (fun j => rem j (updr (runs s) i r' j)) (R P) + rem i (runs s i) =
+    sumr (fun j => rem j (runs s j)) (R P) + rem i r'.
+  Proof.
+    intros s i r' Hi.
+    assert (H : sumr (fun j => rem j (updr (runs s) i r' j)) (R P) + rem i (runs s i) =
+                sumr (fun j => rem j (runs s j)) (R P) + rem i (updr (runs s) i r' i)).
+    { apply (sumr_update (fun j => rem j (updr (runs s) i r' j)) (fun j => rem j (runs s j)) (R P) i Hi).
+      intros j Hj Hne. unfold updr. destruct (Nat.eqb j i) eqn:E; [apply Nat.eqb_eq in E; contradiction | reflexivity]. }
+    unfold updr at 2 in H. rewrite Nat.eqb_refl in H. exact H.
+  Qed.
+
+  Lemma mu_updr' : forall s i r' a b, i < R P -> rem i (runs s i) = a -> rem i r' = b ->
+    sumr (fun j => rem j (updr (runs s) i r' j)) (R P) + a = sumr (fun j => rem j (runs s j)) (R P) + b.
+  Proof. intros s i r' a b Hi <- <-. apply mu_updr. exact Hi. Qed.
+
+  Lemma mu_step : forall s a, ni_inv P ch m0 s -> cnt_inv P c s ->
+    enabled P c s a = true -> mu (step P c ch s a) < mu s.
+  Proof.
+    intros s a Hni Hcnt Hen. unfold enabled in Hen. unfold step.
+    destruct (crashed s || wgpanic s) eqn:Ecw; [discriminate Hen |].
+    apply orb_false_iff in Ecw. destruct Ecw as [Ecr Ewg].
+    destruct Hcnt as (Hnx & Hnid & Hfl & Hflc & Hnd & _ & _ & _).
+    destruct a as [| i].
+    - unfold step_main. destruct (returned s) eqn:Eret; [discriminate Hen |].
+      destruct (Nat.ltb (next s) (R P)) eqn:Enx.
+      + rewrite Hen. apply Nat.ltb_lt in Enx.
+        assert (Hph : ph (runs s (next s)) = Idle).
+        { pose proof (Hnid (next s) Enx) as H. rewrite Nat.ltb_irrefl in H.
+          unfold not_idle in H. destruct (ph (runs s (next s))); try discriminate H. reflexivity. }
+        unfold mu. cbn [next returned runs].
+        assert (Hm := mu_updr' s (next s) (mkR Running 0) (bound (next s) + 3) (bound (next s) - 0 + 2) Enx ltac:(unfold rem; rewrite Hph; reflexivity) eq_refl).
+        rewrite Eret. cbn [negb b2n]. lia.
+      + rewrite Hen. unfold mu. cbn [next returned runs]. rewrite Eret. cbn [negb b2n]. lia.
+    - apply andb_true_iff in Hen. destruct Hen as [Hi Hen]. unfold step_run. rewrite Hi.
+      apply Nat.ltb_lt in Hi.
+      destruct (Hni i Hi) as (_ & Ha & _ & _ & Hr & _).
+      destruct (ph (runs s i)) eqn:Eph; try discriminate Hen.
+      + (* Running *)
+        specialize (Hr eq_refl Ecr). pose proof (going_lt_bound i _ Hi Hr) as Hlt.
+        destruct (lstep (prog_of P i) (pc (runs s i)) (view (fp (prog_of P i)) (smem s)) (ch i (pc (runs s i))))
+          as [[[vs evs] fin] |].
+        * unfold mu. cbn [next returned runs].
+          destruct fin.
+          { assert (Hm := mu_updr' s i (mkR Ran (S (pc (runs s i)))) (bound i - pc (runs s i) + 2) (2) Hi ltac:(unfold rem; rewrite Eph; reflexivity) eq_refl). lia. }
+          { assert (Hm := mu_updr' s i (mkR Running (S (pc (runs s i)))) (bound i - pc (runs s i) + 2) (bound i - S (pc (runs s i)) + 2) Hi ltac:(unfold rem; rewrite Eph; reflexivity) eq_refl). lia. }
+        * unfold mu. cbn [next returned runs].
+          assert (Hm := mu_updr' s i (mkR Running (S (pc (runs s i)))) (bound i - pc (runs s i) + 2) (bound i - S (pc (runs s i)) + 2) Hi ltac:(unfold rem; rewrite Eph; reflexivity) eq_refl). lia.
+      + (* Ran *)
+        apply negb_true_iff in Hen. apply Nat.eqb_neq in Hen.
+        destruct (inflight s) as [| n]; [contradiction |].
+        unfold mu. cbn [next returned runs].
+        assert (Hm := mu_updr' s i (mkR Released (pc (runs s i))) (2) (1) Hi ltac:(unfold rem; rewrite Eph; reflexivity) eq_refl). lia.
+      + (* Released *)
+        assert (Hlt : ndone s < R P).
+        { rewrite Hnd. apply (countp_lt is_finished (runs s) (R P) i Hi). unfold is_finished. rewrite Eph. reflexivity. }
+        apply Nat.ltb_lt in Hlt. rewrite Hlt.
+        unfold mu. cbn [next returned runs].
+        assert (Hm := mu_updr' s i (mkR Finished (pc (runs s i))) (1) (0) Hi ltac:(unfold rem; rewrite Eph; reflexivity) eq_refl). lia.
+  Qed.
+
+  Lemma mu_exec : forall sch s, ni_inv P ch m0 s -> cnt_inv P c s ->
+    enabled_run P c ch sch s = true -> length sch + mu (exec P c ch sch s) <= mu s.
+  Proof.
+    induction sch as [| a sch IH]; intros s Hni Hcnt Hen; cbn [length exec fold_left]; [lia |].
+    cbn [enabled_run] in Hen. apply andb_true_iff in Hen. destruct Hen as [Ha Hrest].
+    pose proof (mu_step s a Hni Hcnt Ha) as Hlt.
+    specialize (IH (step P c ch s a) (ni_step P c ch m0 Hdisj s a Hni) (cnt_step P c ch s a Hcnt) Hrest).
+    change (fold_left (step P c ch) sch (step P c ch s a)) with (exec P c ch sch (step P c ch s a)). lia.
+  Qed.
+
+  (* a crash is always some run's own solo panic *)
+  Lemma crash_step : forall s a, ni_inv P ch m0 s ->
+    (crashed s = true -> exists i, i < R P /\ so_status (solo (prog_of P i) (ch i) m0 (pc (runs s i))) = Crashed) ->
+    crashed (step P c ch s a) = true ->
+    exists i, i < R P /\ so_status (solo (prog_of P i) (ch i) m0 (pc (runs (step P c ch s a) i))) = Crashed.
+  Proof.
+    intros s a Hni Hold. unfold step.
+    destruct (crashed s || wgpanic s) eqn:Ecw; [exact Hold |].
+    apply orb_false_iff in Ecw. destruct Ecw as [Ecr Ewg].
+    destruct a as [| i].
+    - unfold step_main. destruct (returned s); [exact Hold |].
+      destruct (Nat.ltb (next s) (R P)).
+      + destruct (Nat.ltb (inflight s) c); [| exact Hold]. cbn [crashed]. intros Hc. rewrite Ecr in Hc. discriminate Hc.
+      + destruct (Nat.eqb (ndone s) (R P)); [| exact Hold]. cbn [crashed]. intros Hc. rewrite Ecr in Hc. discriminate Hc.
+    - unfold step_run. destruct (Nat.ltb i (R P)) eqn:Ei; [| exact Hold]. apply Nat.ltb_lt in Ei.
+      destruct (Hni i Ei) as (_ & Ha & _ & _ & Hr & _).
+      destruct (ph (runs s i)) eqn:Eph; try exact Hold.
+      + specialize (Hr eq_refl Ecr).
+        destruct (lstep (prog_of P i) (pc (runs s i)) (view (fp (prog_of P i)) (smem s)) (ch i (pc (runs s i))))
+          as [[[vs evs] fin] |] eqn:El.
+        * cbn [crashed]. intros Hc. rewrite Ecr in Hc. discriminate Hc.
+        * intros _. exists i. split; [exact Ei |]. cbn [runs]. unfold updr. rewrite Nat.eqb_refl. cbn [pc solo].
+          unfold solo_step. rewrite Hr. rewrite <- (agree_view _ _ _ Ha). rewrite El. reflexivity.
+      + destruct (inflight s); [exact Hold |]. cbn [crashed]. intros Hc. rewrite Ecr in Hc. discriminate Hc.
+      + destruct (Nat.ltb (ndone s) (R P)); cbn [crashed]; intros Hc; rewrite Ecr in Hc; discriminate Hc.
+  Qed.
+
+  Lemma crash_exec : forall sch s, ni_inv P ch m0 s ->
+    (crashed s = true -> exists i, i < R P /\ so_status (solo (prog_of P i) (ch i) m0 (pc (runs s i))) = Crashed) ->
+    crashed (exec P c ch sch s) = true ->
+    exists i, i < R P /\ so_status (solo (prog_of P i) (ch i) m0 (pc (runs (exec P c ch sch s) i))) = Crashed.
+  Proof.
+    induction sch as [| a sch IH]; intros s Hni Hold; [exact Hold |].
+    cbn [exec fold_left]. apply IH; [apply ni_step; assumption |]. apply crash_step; assumption.
+  Qed.
+End Termination.
+
+Lemma mu_init : forall P bound m0,
+  mu P bound (init_state m0) = length P + 1 + sumr (fun i => bound i + 3) (length P).
+Proof.
+  intros P bound m0. unfold mu, init_state, R. cbn [next returned runs negb b2n]. rewrite Nat.sub_0_r.
+  rewrite (sumr_ext _ (fun i => bound i + 3)); [lia |]. intros i Hi. reflexivity.
+Qed.
+
+Lemma schedules_bounded : forall P c ch m0 bound sch,
+  pairwise_disjointb (map fp P) = true ->
+  (forall i, i < length P -> so_status (solo (nth i P idle_prog) (ch i) m0 (bound i)) <> Going) ->
+  enabled_run P c ch sch (init_state m0) = true ->
+  length sch <= length P + 1 + sumr (fun i => bound i + 3) (length P).
+Proof.
+  intros P c ch m0 bound sch Hd Hb Hen.
+  pose proof (mu_exec P c ch m0 bound Hd Hb sch (init_state m0) (ni_init P ch m0) (proj2 (cnt_init P c) m0) Hen) as H.
+  rewrite mu_init in H. lia.
+Qed.
+
+Lemma maximal_returns_or_crashes : forall P c ch m0 sch, 1 <= c ->
+  let s := exec P c ch sch (init_state m0) in
+  (forall a, enabled P c s a = false) -> returned s = true \/ crashed s = true.
+Proof.
+  intros P c ch m0 sch Hc s Hmax.
+  destruct (crashed s) eqn:Ecr; [right; reflexivity |].
+  destruct (returned s) eqn:Eret; [left; reflexivity |].
+  destruct (progress P c ch m0 sch Hc Ecr Eret) as [a Ha]. rewrite Hmax in Ha. discriminate Ha.
+Qed.
+
+Lemma crash_is_a_solo_panic : forall P c ch m0 sch,
+  pairwise_disjointb (map fp P) = true ->
+  let s := exec P c ch sch (init_state m0) in
+  crashed s = true ->
+  exists i, i < length P /\ so_status (solo (nth i P idle_prog) (ch i) m0 (pc (runs s i))) = Crashed.
+Proof.
+  intros P c ch m0 sch Hd s Hc.
+  apply (crash_exec P c ch m0 Hd sch (init_state m0) (ni_init P ch m0)); [| exact Hc].
+  cbn [crashed init_state]. intros H. discriminate H.
+Qed.
+
+(* the annealing clones: no panics, N + 2 steps each: every maximal schedule ends with the
+   scenario returned, after at most R * (N + 6) + 1 actions *)
+Lemma sumr_const : forall k n, sumr (fun _ => k) n = n * k.
+Proof. intros k n. induction n as [| n IH]; cbn [sumr]; [reflexivity |]. rewrite IH. lia. Qed.
+
+Lemma annealing_scenario_returns : forall T0 cf N R c ch m0 sch, 1 <= c ->
+  let P := fixed_progs T0 cf N R in
+  let s := exec P c ch sch (init_state m0) in
+  enabled_run P c ch sch (init_state m0) = true ->
+  length sch <= R * (N + 6) + 1 /\
+  crashed s = false /\
+  ((forall a, enabled P c s a = false) -> returned s = true).
+Proof.
+  intros T0 cf N R c ch m0 sch Hc P s Hen.
+  assert (Hd : pairwise_disjointb (map fp P) = true) by apply fixed_progs_disjoint.
+  assert (Hlen : length P = R) by apply fixed_progs_length.
+  assert (Hst : forall i k, i < R -> so_status (solo (nth i P idle_prog) (ch i) m0 k) <> Crashed).
+  { intros i k Hi. unfold P. rewrite fixed_progs_nth by exact Hi. unfold fixed_prog.
+    rewrite anneal_status. destruct (Nat.leb (N + 2) k); discriminate. }
+  assert (Hcr : crashed s = false).
+  { destruct (crashed s) eqn:E; [| reflexivity].
+    destruct (crash_is_a_solo_panic P c ch m0 sch Hd E) as [i [Hi Hs]]. fold s in Hs.
+    rewrite Hlen in Hi. exfalso. exact (Hst i _ Hi Hs). }
+  split; [| split; [exact Hcr |]].
+  - pose proof (schedules_bounded P c ch m0 (fun _ => N + 2) sch Hd) as H.
+    rewrite Hlen, sumr_const in H.
+    assert (Hb : forall i, i < R -> so_status (solo (nth i P idle_prog) (ch i) m0 (N + 2)) <> Going).
+    { intros i Hi. unfold P. rewrite fixed_progs_nth by exact Hi. unfold fixed_prog.
+      rewrite anneal_status, Nat.leb_refl. discriminate. }
+    specialize (H Hb Hen). lia.
+  - intros Hmax. destruct (maximal_returns_or_crashes P c ch m0 sch Hc Hmax) as [H | H]; [exact H |].
+    fold s in H. rewrite Hcr in H. discriminate H.
+Qed.
